@@ -42,7 +42,7 @@ impl ObjectMeta for Meta {
     }
 }
 
-const SIZES: [usize; 4] = [1, 256 - HEADER - 2 - 4, 256 - HEADER - 2 - 4 + 1, 512 - HEADER - 2 - 4];
+const SIZES: [usize; 5] = [1, 256 - HEADER - 2 - 4, 256 - HEADER - 2 - 4 + 1, 512 - HEADER - 2 - 4, 768 - HEADER - 2 - 4];
 
 #[derive(Clone, Copy, Debug, Eq, Hash, PartialEq)]
 pub enum Op {
@@ -161,7 +161,7 @@ fn tiling(b: &[u8], model: &Model, names: &[Vec<u8>]) -> Result<Vec<Tile>, Strin
 
 //------------ Exploration ---------------------------------------------------
 
-struct Env { names: Vec<Vec<u8>>, scratch: PathBuf }
+struct Env { names: Vec<Vec<u8>>, scratch: PathBuf, crumb: Option<PathBuf> }
 
 /// Applies `op`; returns an observation string or a violation.
 fn apply(
@@ -359,6 +359,14 @@ struct Expansion {
 /// Expands a list of states with every operation (single-threaded: the
 /// archive memory-maps its file and concurrent threads only fight for the
 /// address space lock; parallelism is by process).
+fn crumb(env: &Env, hist: &[u16], oi: usize) {
+    if let Some(path) = env.crumb.as_ref() {
+        let mut h: Vec<u16> = hist.to_vec();
+        h.push(oi as u16);
+        let _ = fs::write(path, serde_json::to_vec(&h).unwrap());
+    }
+}
+
 fn expand_states(env: &Env, header: &[u8], states: &[State]) -> Expansion {
     let ops = alphabet(3);
     let mut ex = Expansion::default();
@@ -384,6 +392,7 @@ fn expand_states(env: &Env, header: &[u8], states: &[State]) -> Expansion {
                     for (oi, op) in ops.iter().enumerate() {
                         if mutating(op) { continue }
                         let mut m = st.model.clone();
+                        crumb(env, &st.hist, oi);
                         let r = util::catch(|| apply_on(env, &mut ar, &mut m, *op));
                         let r = match r {
                             Ok(Ok(_)) if m != st.model => Ok(Err(("readonly-op-changed-model".to_string(), format!("{op:?}")))),
@@ -425,6 +434,7 @@ fn expand_states(env: &Env, header: &[u8], states: &[State]) -> Expansion {
             if !mutating(op) { continue }
             write_state(&path, &bytes);
             let mut m = st.model.clone();
+            crumb(env, &st.hist, oi);
             let r = util::catch(|| apply(env, &path, &mut m, *op));
             ex.transitions += 1;
             let mut h = st.hist.clone();
@@ -501,7 +511,17 @@ pub fn aux_expand(args: &[String]) -> i32 {
     let names: Vec<Vec<u8>> = (0..3).map(|_| rd.get().to_vec()).collect();
     let mut states = Vec::new();
     while !rd.done() { states.push(get_state(&mut rd)); }
-    let env = Env { names, scratch: PathBuf::from(&args[2]) };
+    // A corrupted archive may make the code under test loop or allocate
+    // without bound: cap the address space so that this is a clean death
+    // of this worker, which the parent reports with the breadcrumb.
+    unsafe {
+        let lim = libc::rlimit { rlim_cur: 6 << 30, rlim_max: 6 << 30 };
+        libc::setrlimit(libc::RLIMIT_AS, &lim);
+    }
+    let env = Env {
+        names, scratch: PathBuf::from(&args[2]),
+        crumb: Some(PathBuf::from(format!("{}.crumb", args[1]))),
+    };
     let ex = expand_states(&env, &header, &states);
     let mut out = Vec::new();
     put(&mut out, &ex.transitions.to_le_bytes());
@@ -515,12 +535,14 @@ pub fn aux_expand(args: &[String]) -> i32 {
 }
 
 fn expand_parallel(env: &Env, header: &[u8], layer: &[State]) -> Expansion {
-    let workers = std::env::var("C26_WORKERS").ok().and_then(|s| s.parse().ok()).unwrap_or(1);
-    if layer.len() < 64 || workers <= 1 {
-        return expand_states(env, header, layer)
-    }
+    // Always in worker processes: the code under test runs on archive
+    // files it produced itself; if a change makes it loop or allocate
+    // without bound on such a file, that must end one worker (address
+    // space cap, wall cap), not the exploration.
+    let workers: usize = std::env::var("C26_WORKERS").ok().and_then(|s| s.parse().ok()).unwrap_or(1);
+    let workers = if layer.len() < 64 { 1 } else { workers.max(1) };
     let exe = std::env::current_exe().unwrap();
-    let per = layer.len().div_ceil(workers);
+    let per = layer.len().div_ceil(workers).max(1);
     let mut children = Vec::new();
     for (w, chunk) in layer.chunks(per).enumerate() {
         let mut buf = Vec::new();
@@ -533,14 +555,45 @@ fn expand_parallel(env: &Env, header: &[u8], layer: &[State]) -> Expansion {
         let child = std::process::Command::new(&exe)
             .arg("--aux").arg("c26-expand").arg(&inp).arg(&outp).arg(&env.scratch)
             .spawn().expect("spawn worker");
-        children.push((child, inp, outp));
+        children.push((child, inp, outp, chunk.len()));
     }
     let mut total = Expansion::default();
-    for (mut child, inp, outp) in children {
-        let st = child.wait().unwrap();
-        if !st.success() {
-            eprintln!("machinery error: C26 worker died: {st}");
-            std::process::exit(2)
+    for (mut child, inp, outp, n) in children {
+        // generous: 50 ms per state plus a minute
+        let limit = std::time::Duration::from_millis(60_000 + 50 * n as u64);
+        let started = std::time::Instant::now();
+        let st = loop {
+            match child.try_wait().unwrap() {
+                Some(st) => break Some(st),
+                None if started.elapsed() > limit => {
+                    let _ = child.kill();
+                    let _ = child.wait();
+                    break None
+                }
+                None => std::thread::sleep(std::time::Duration::from_millis(20)),
+            }
+        };
+        if st.map(|st| !st.success()).unwrap_or(true) {
+            let crumb_path = PathBuf::from(format!("{}.crumb", outp.display()));
+            let hist: Option<Vec<u16>> = fs::read(&crumb_path).ok()
+                .and_then(|d| serde_json::from_slice(&d).ok());
+            match hist {
+                Some(h) => {
+                    let (class, what) = match st {
+                        None => ("hang", format!("did not finish within {limit:?}")),
+                        Some(st) => ("crash", format!("worker died with {st} (address space capped at 6 GiB)")),
+                    };
+                    *total.outcomes.entry(format!("VIOLATION:{class}")).or_insert(0) += 1;
+                    total.violations.push((class.into(), format!(
+                        "the archive code {what} while executing the last operation of this sequence"
+                    ), h));
+                }
+                None => {
+                    eprintln!("machinery error: C26 worker died without a breadcrumb: {st:?}");
+                    std::process::exit(2)
+                }
+            }
+            continue
         }
         let data = fs::read(&outp).unwrap();
         let mut rd = Rd(&data, 0);
@@ -558,6 +611,35 @@ fn expand_parallel(env: &Env, header: &[u8], layer: &[State]) -> Expansion {
     total
 }
 
+/// Operation sequences whose end states are additional roots of the
+/// search ("start from non-initial states too"): fragmented archives with
+/// free blocks of different sizes in both free-list orders.
+fn root_sequences() -> Vec<Vec<Op>> {
+    let full = vec![Op::Publish(0, 4), Op::Publish(1, 1), Op::Publish(2, 3)];
+    let mut r2 = full.clone(); r2.push(Op::Delete(2, true)); r2.push(Op::Delete(0, true));
+    let mut r3 = full.clone(); r3.push(Op::Delete(0, true)); r3.push(Op::Delete(2, true));
+    let chain = vec![Op::Publish(1, 3), Op::Publish(2, 4), Op::Publish(0, 1), Op::Delete(1, true)];
+    vec![full, r2, r3, chain]
+}
+
+fn build_root(env: &Env, init: &[u8], seq: &[Op], ops: &[Op]) -> Result<State, String> {
+    let path = env.scratch.join("root.bin");
+    write_state(&path, init);
+    let mut model = Model::new();
+    let mut hist = Vec::new();
+    for op in seq {
+        let r = util::catch(|| apply(env, &path, &mut model, *op));
+        match r {
+            Ok(Ok(_)) => { }
+            other => return Err(format!("{op:?}: {other:?}")),
+        }
+        hist.push(ops.iter().position(|o| o == op).expect("root op in alphabet") as u16);
+    }
+    let bytes = fs::read(&path).map_err(|e| e.to_string())?;
+    tiling(&bytes, &model, &env.names).map_err(|e| format!("tiling of root: {e}"))?;
+    Ok(State { bytes: compact(&bytes), model, hist })
+}
+
 fn key128(s: &State) -> (u64, u64) {
     use std::hash::Hash;
     let mut h1 = siphasher::sip::SipHasher24::new_with_keys(1, 2);
@@ -570,7 +652,7 @@ fn key128(s: &State) -> (u64, u64) {
 pub fn run(ctx: &Ctx) -> Report {
     util::quiet_panics();
     let mut rep = Report::new("model_checking");
-    let max_depth = if ctx.tier.thorough() { 64 } else { 5 };
+    let max_depth = if ctx.tier.thorough() { 64 } else { 4 };
     let state_cap = if ctx.tier.thorough() { 6_000_000usize } else { 1_000_000 };
     let wall_cap = std::time::Duration::from_secs(if ctx.tier.thorough() { 900 } else { 45 });
     let started = std::time::Instant::now();
@@ -579,7 +661,10 @@ pub fn run(ctx: &Ctx) -> Report {
     rep.rule = format!("explicit-state BFS over archive files: names a (own \
         bucket), x and y (forced into one bucket by searching the archive's \
         SipHash key); data sizes {:?} (1 byte, exactly one page, one page \
-        + 1, exactly two pages; page = 256); {} operations (publish, \
+        + 1, exactly two pages, exactly three pages; page = 256); roots: \
+        the empty archive and four fragmented archives built by fixed \
+        operation sequences (free blocks of different sizes in both \
+        free-list orders, a shortened bucket chain); {} operations (publish, \
         update and delete with accepting and rejecting meta checks, fetch, \
         fetch_if, reopen); every transition runs the real Archive on a \
         file restored from the state; oracle = BTreeMap model for results \
@@ -587,12 +672,24 @@ pub fn run(ctx: &Ctx) -> Report {
         bucket membership, chain shape and exact tiling of \
         [index end, file length); dedup key = 128-bit SipHash of (file \
         content with one fixed hash key for the whole run, model)", SIZES, ops.len());
-    let env = Env { names: names.clone(), scratch: ctx.scratch.clone() };
+    let env = Env { names: names.clone(), scratch: ctx.scratch.clone(), crumb: None };
     let header = init[..INDEX_START].to_vec();
     let mut seen: HashSet<(u64, u64)> = HashSet::new();
     let first = State { bytes: compact(&init), model: Model::new(), hist: Vec::new() };
     seen.insert(key128(&first));
     let mut frontier = vec![first];
+    // Additional roots: states reached by fixed operation sequences. A
+    // failure while building them is a violation with that sequence.
+    for seq in root_sequences() {
+        match build_root(&env, &init, &seq, &ops) {
+            Ok(st) => { if seen.insert(key128(&st)) { frontier.push(st) } }
+            Err(e) => {
+                let h: Vec<u16> = seq.iter().map(|op| ops.iter().position(|o| o == op).unwrap() as u16).collect();
+                rep.violation("archive:root", format!("root sequence {seq:?} fails: {e}"), json!({"ops": h}));
+            }
+        }
+    }
+    rep.extra.insert("roots".into(), json!(frontier.len()));
     let mut depth: usize = 0;
     let mut max_file = init.len();
     let mut max_tiles = 0usize;
@@ -631,7 +728,7 @@ pub fn run(ctx: &Ctx) -> Report {
     rep.traces = rep.transitions;
     rep.evaluations = rep.transitions;
     rep.nontrivial = rep.outcomes.iter().filter(|(k, _)| k.ends_with(":ok")).map(|(_, v)| *v).sum();
-    rep.bound = format!("BFS: every operation sequence up to length {depth} executed (all states at depth < {depth} fully expanded); {} distinct states; fixpoint reached: {fixpoint}", seen.len());
+    rep.bound = format!("BFS from {} roots: every operation sequence up to length {depth} from every root executed (all states at depth < {depth} fully expanded); {} distinct states; fixpoint reached: {fixpoint}", rep.extra.get("roots").and_then(|v| v.as_u64()).unwrap_or(1), seen.len());
     rep.capped = capped;
     rep.exhaustive = fixpoint;
     rep.extra.insert("depth_completed".into(), json!(depth));
@@ -656,7 +753,7 @@ pub fn run(ctx: &Ctx) -> Report {
 pub fn replay(ctx: &Ctx, v: &Value) -> Report {
     let mut rep = Report::new("model_checking");
     let (names, init) = setup(&ctx.scratch);
-    let env = Env { names: names.clone(), scratch: ctx.scratch.clone() };
+    let env = Env { names: names.clone(), scratch: ctx.scratch.clone(), crumb: None };
     let ops = alphabet(3);
     let path = ctx.scratch.join("replay.bin");
     fs::write(&path, &init).unwrap();
